@@ -97,7 +97,7 @@ def expect_stream(L, name, access):
 
 def pat_match(pat, name): return re.search(pat, name, re.I) is not None
 
-def res_case(L, queries, tag):
+def res_case(L, queries, tag, nomodel=False):
     """queries: list of tuples; builds the line and a direct oracle over the whole answer vector"""
     qs = []
     for q in queries:
@@ -125,24 +125,32 @@ def res_case(L, queries, tag):
                 exp = "[" + ",".join(sorted(h(n) for n in names)) + "]"
                 if r != exp: return f"GetAllFilenames({q[1]!r}, access={q[2]}) returned {r}; the names matching the pattern are {exp}"
             elif q[0] == "t":
+                # names arrive folded to upper case (which of two members equal ignoring case is listed depends on load order)
                 got = [] if r == "[]" else [bytes.fromhex(x).decode("latin1") for x in r[1:-1].split(",")]
                 ext = q[1]
-                allnames = set(L.loose_names()) | ({n for _, ms in L.archives() for n, _ in ms} if q[2] else set())
+                loose_up = [n.upper() for n in L.loose_names()]
+                allnames = set(loose_up) | ({n.upper() for _, ms in L.archives() for n, _ in ms} if q[2] else set())
                 for g in got:
                     if g not in allnames: return f"type listing contains {g!r} which is neither a loose file nor a member"
                 for n in L.loose_names():
-                    if ext.startswith(".") and n.endswith(ext) and n.rfind(".") == len(n) - len(ext) and n not in got:
+                    if ext.startswith(".") and n.endswith(ext) and n.rfind(".") == len(n) - len(ext) and n.upper() not in got:
                         return f"loose file {n!r} has extension {ext!r} but is not listed"
-                ups = [g.upper() for g in got if g not in L.loose_names()]
-                if len(ups) != len(set(ups)): return "two archive members equal ignoring case are both listed"
+                from collections import Counter
+                cnt = Counter(got); lc = Counter(x for x in loose_up if x in cnt)
+                for g, k in cnt.items():
+                    if k > max(1, lc.get(g, 0)): return f"{g!r} is listed {k} times: an archive member equal (ignoring case) to a name already listed was added"
         return None
-    return Case(f"!res.q {L.spec()} {';'.join(qs)}", check=chk, tag=tag)
+    return Case(f"!res.q {L.spec()} {';'.join(qs)}", check=chk, tag=tag, nomodel=nomodel)
 
-NAMES = ["a.txt", "B.TXT", "c.bmp", "Data.Map", "e", "f.wav", "G.Bmp", "h_1.txt", "zz.vol.txt"]
+NAMES = ["a.txt", "B.TXT", "c.bmp", "Data.Map", "e", "f.wav", "G.Bmp", "h_1.txt", "zz.vol.txt",
+         # characters between 'Z' and 'a' order differently under upper- and lower-case folding
+         "a_b.txt", "aab.txt", "WELL_002.bmp", "wellA003.bmp", "_under.txt", "a^b.txt", "a[1].txt", "aZ.txt", "a`.txt"]
 CLMN = ["snd1", "SND2", "eden", "a"]
 
-def rand_layout(rng):
-    L = Lay()
+def rand_layout(rng, overlap=False):
+    """overlap=False: no member name (ignoring case) occurs in two archives, so every answer is independent of the
+    archive load order (= directory iteration order) and can be compared with the model, which is given one order"""
+    L = Lay(); used = set()
     for n in rng.sample(NAMES, rng.randrange(0, 5)): L.loose[n] = bytes(rng.randrange(256) for _ in range(rng.randrange(0, 70)))
     if rng.random() < 0.6:
         d = rng.choice(["sub", "Dir", "x.vol.d"])
@@ -151,12 +159,16 @@ def rand_layout(rng):
     if rng.random() < 0.3: L.dirs.append(rng.choice(["dir.vol", "dir.clm"]))     # a directory named like an archive is not loaded
     for k in range(rng.randrange(0, 3)):
         ms = []
-        for n in rng.sample(NAMES, rng.randrange(0, 5)):
+        for n in rng.sample(NAMES, rng.randrange(0, 8)):
             n2 = rng.choice([n, n.upper(), n.lower()])
-            if n2.upper() not in {m.upper() for m, _ in ms}: ms.append((n2, bytes(rng.randrange(256) for _ in range(rng.randrange(0, 90)))))
+            if n2.upper() in {m.upper() for m, _ in ms}: continue
+            if not overlap and n2.upper() in used: continue
+            used.add(n2.upper())
+            ms.append((n2, bytes(rng.randrange(256) for _ in range(rng.randrange(0, 90)))))
         L.vols.append((rng.choice(["art", "Maps", "x"]) + str(k) + rng.choice([".vol", ".vol", ".vol", ".VOL", ".vol2"]), ms))
     if rng.random() < 0.5:
-        ms = [(n, bytes(rng.randrange(256) for _ in range(2 * rng.randrange(0, 30)))) for n in rng.sample(CLMN, rng.randrange(0, 4))]
+        ms = [(n, bytes(rng.randrange(256) for _ in range(2 * rng.randrange(0, 30)))) for n in rng.sample(CLMN, rng.randrange(0, 4))
+              if overlap or n.upper() not in used]
         L.clms.append(("music" + rng.choice([".clm", ".clm", ".CLM"]), ms))
     return L
 
@@ -167,7 +179,7 @@ def cases(tier, rng):
         kind = rng.choice("vvc")
         pool = CLMN if kind == "c" else NAMES
         ms = []
-        for n in rng.sample(pool, rng.randrange(0, min(6, len(pool)) + 1)):
+        for n in rng.sample(pool, rng.randrange(0, min(9, len(pool)) + 1)):
             n2 = rng.choice([n, n.upper(), n.lower()])
             ms.append((n2, bytes(rng.randrange(256) for _ in range(2 * rng.randrange(0, 20)))))
         qs = []
@@ -175,8 +187,9 @@ def cases(tier, rng):
         qs += [rng.choice(pool) for _ in range(2)] + ["nope", "dir/" + (ms[0][0] if ms else "a"), "x" + (ms[0][0] if ms else "a")]
         yield lookup_case(kind, ms, qs, f"lookup-{'clm' if kind == 'c' else 'vol'}")
     # resource resolution
-    for _ in range(300 if thorough else 90):
-        L = rand_layout(rng)
+    for it in range(300 if thorough else 90):
+        overlap = it % 3 == 0       # member names shared between archives: answers may depend on the load order -> Python oracle only
+        L = rand_layout(rng, overlap)
         allm = [n for _, ms in L.vols + L.clms for n, _ in ms]
         pool = list(L.loose) + allm + NAMES[:3] + [f"{d}/{n}" for (d, n) in L.sub]
         qs = []
@@ -192,7 +205,7 @@ def cases(tier, rng):
             n = rng.choice(pool) if pool else "a"
             qs.append(("a", rng.choice([n, n.upper(), "./" + n])))
         qs.append(("n",))
-        yield res_case(L, qs, "resolution")
+        yield res_case(L, qs, "resolution-overlapping-archives" if overlap else "resolution", nomodel=overlap)
 
 def search(drv, model, diverged, lean, rng):
     extra = list(cases("thorough", rng))
